@@ -389,7 +389,8 @@ theorem run_cons_ok {S : Std} {p : Patron} {o : Op} {os : List Op} (hok : (run S
 /-- **C34, chain in order** (all chains, all standard-library behaviours): if a waiting, redirectable
 client receives redirect responses `rs` and then a non-redirect response `f`, and no exception or stalled
 body ends the history, then `.responses` grows by exactly one entry — the response `f` — whose `redirects`
-are the earlier pending ones followed by the responses `rs` **in arrival order**; `.redirects` is empty
+are the earlier pending ones followed by the responses `rs` **in arrival order**, each with its
+status, Location and body; `.redirects` is empty
 again, the client no longer waits, exactly one request was sent per redirect and exactly one response was
 delivered. -/
 theorem C34_chain_in_order (S : Std) (rs : List Resp) (f : Resp) (p : Patron)
@@ -399,8 +400,8 @@ theorem C34_chain_in_order (S : Std) (rs : List Resp) (f : Resp) (p : Patron)
     (hns : Effect.stall ∉ (run S p (rs.map Op.response ++ [Op.response f])).es) :
     let o := run S p (rs.map Op.response ++ [Op.response f])
     ∃ chain snap,
-      o.p.responses = p.responses ++ [(⟨f.status, f.location, snap⟩, p.redirects ++ chain)]
-      ∧ chain.map (fun c => (c.status, c.location)) = rs.map (fun r => (r.status, r.location))
+      o.p.responses = p.responses ++ [(⟨f.status, f.location, snap, f.body⟩, p.redirects ++ chain)]
+      ∧ chain.map (fun c => (c.status, c.location, c.body)) = rs.map (fun r => (r.status, r.location, r.body))
       ∧ o.p.redirects = [] ∧ o.p.waited = false
       ∧ (o.es.filter Effect.isSend).length = rs.length
       ∧ (o.es.filter Effect.isDeliver).length = 1 := by
@@ -608,8 +609,8 @@ def pSec : Patron :=
 
 def tSec : Target := ⟨"b.test".toList, 443, sHttps, true, "/x".toList, "k=v".toList, []⟩
 
-def rHop : Resp := ⟨302, some "https://b.test:443/x?k=v".toList, 0, 0⟩
-def rEnd : Resp := ⟨200, none, 2, 2⟩
+def rHop : Resp := ⟨302, some "https://b.test:443/x?k=v".toList, 2, 2, [7, 8]⟩
+def rEnd : Resp := ⟨200, none, 2, 2, [111, 107]⟩
 
 /-- `C34_never_downgrades` / `C34_chain_in_order` are about histories like this one: the https client is
 `Secure`, the hop is followed over a new TLS connection, the final response carries the hop -/
@@ -620,7 +621,9 @@ example : Secure pSec
            .send ⟨"10.0.0.2".toList, 443, true⟩ ⟨sGET, "/x?k=v".toList, "b.test:443".toList, []⟩, .deliver]
     ∧ ((run cpy pSec [.response rHop, .response rEnd]).p.responses.map
           (fun x => (x.1.status, x.2.map (fun c => (c.status, c.location)))))
-        = [(200, [(302, some "https://b.test:443/x?k=v".toList)])] := by
+        = [(200, [(302, some "https://b.test:443/x?k=v".toList)])]
+    ∧ ((run cpy pSec [.response rHop, .response rEnd]).p.responses.map (fun x => (x.1.body, x.2.map (fun c => c.body))))
+        = [([111, 107], [[7, 8]])] := by
   decide
 
 /-- `C34_no_downgrade`: hypotheses satisfiable (https client, http target) -/
